@@ -68,6 +68,58 @@ m("C17-mi-shows-ma", "v3/report/report-environmental.go", "names.MIValueOf(envir
 m("C17-default-lang", "v3/report/options.go", "opts := &options{lang: language.English}", "opts := &options{lang: language.Japanese}")
 m("C17-skip-first-option", "v3/report/options.go", "for _, o := range os {", "for _, o := range os[:len(os)/2] {")
 m("C17-same-title", "v3/report/names/modified-integrity-impact.go", "\"Modified Integrity Impact\"", "\"Modified Confidentiality Impact \"")
+
+# ---- C07
+m("C07-arm-early-return", "v3/metric/base.go", "\tcase metricUI: //User Interaction\n\t\tbm.UI = GetUserInteraction(m[1])\n\t\tif bm.UI == UserInteractionUnknown {\n\t\t\treturn errs.Wrap(cvsserr.ErrInvalidValue, errs.WithContext(\"metric\", str))\n\t\t}\n", "\tcase metricUI: //User Interaction\n\t\tbm.UI = GetUserInteraction(m[1])\n\t\tif bm.UI == UserInteractionUnknown {\n\t\t\treturn errs.Wrap(cvsserr.ErrInvalidValue, errs.WithContext(\"metric\", str))\n\t\t}\n\t\treturn nil\n")
+m("C07-no-dup-test-temporal", "v3/metric/temporal.go", "\tif tm.names[name] {\n\t\treturn errs.Wrap(cvsserr.ErrSameMetric, errs.WithContext(\"metric\", str))\n\t}\n", "")
+m("C07-trimspace", "v3/metric/base.go", "\tvalues := strings.Split(vector, \"/\")\n\t//CVSS version", "\tvalues := strings.Split(strings.TrimSpace(vector), \"/\")\n\t//CVSS version")
+mm("C07-equalfold", [("v3/metric/scope.go", "\t\tif s == v {", "\t\tif strings.EqualFold(s, v) {", 1), ("v3/metric/scope.go", "package metric\n", "package metric\n\nimport \"strings\"\n", 1)])
+m("C07-len-lt2", "v3/metric/environmental.go", "\tif len(m) != 2 || len(m[0]) == 0 || len(m[1]) == 0 {", "\tif len(m) < 2 || len(m[0]) == 0 || len(m[1]) == 0 {")
+m("C07-skip-last-token", "v3/metric/temporal.go", "for _, value := range values[1:] {", "for _, value := range values[1:len(values):len(values)][:len(values)-1] {")
+m("C07-temporal-lists-cr", "v3/metric/temporal.go", "\tdefault:\n\t\treturn errs.Wrap(cvsserr.ErrNotSupportMetric, errs.WithContext(\"metric\", str))\n\t}\n\ttm.names[name] = true", "\tcase \"CR\":\n\tdefault:\n\t\treturn errs.Wrap(cvsserr.ErrNotSupportMetric, errs.WithContext(\"metric\", str))\n\t}\n\ttm.names[name] = true")
+m("C07-lowercase-alias", "v3/metric/attack-complexity.go", "func GetAttackComplexity(s string) AttackComplexity {\n", "func GetAttackComplexity(s string) AttackComplexity {\n\tif s == \"l\" {\n\t\treturn AttackComplexityLow\n\t}\n")
+m("C07-version-30only", "v3/metric/version.go", "\tif v[0] != nameCVSS {", "\tif v[0] != nameCVSS && v[0] != \"cvss\" {")
+m("C07-no-geterror", "v3/metric/temporal.go", "\tif err := tm.GetError(); err != nil {\n\t\treturn nil, err\n\t}\n\treturn tm, nil", "\tif err := tm.Base.GetError(); err != nil {\n\t\treturn nil, err\n\t}\n\treturn tm, nil")
+m("C07-lasterr-reset", "v3/metric/environmental.go", "\t\t\tlastErr = err\n\t\t}\n\t}\n\tif lastErr != nil {\n\t\treturn nil, lastErr\n\t}\n\tif err := em.GetError()", "\t\t\tlastErr = err\n\t\t} else {\n\t\t\tlastErr = nil\n\t\t}\n\t}\n\tif lastErr != nil {\n\t\treturn nil, lastErr\n\t}\n\tif err := em.GetError()")
+m("C07-geterror-forgets-ui", "v3/metric/base.go", "bm.PR.IsUnknown(), bm.UI.IsUnknown(), bm.S.IsUnknown()", "bm.PR.IsUnknown(), bm.S.IsUnknown()")
+# ---- C08
+m("C08-compare-base-encode", "v2/metric/temporal.go", "\tenc, err := m.Encode()\n\tif err != nil {\n\t\treturn nil, errs.Wrap(err, errs.WithContext(\"vector\", vector))\n\t}\n\tif vector != enc {", "\tenc, err := m.Encode()\n\tif err != nil {\n\t\treturn nil, errs.Wrap(err, errs.WithContext(\"vector\", vector))\n\t}\n\tif !strings.HasPrefix(vector, enc) {")
+m("C08-partial-group", "v2/metric/temporal.go", "\tcase !m.E.IsValid(), !m.RL.IsValid(), !m.RC.IsValid():", "\tcase !m.E.IsValid() && !m.RL.IsValid() && !m.RC.IsValid():")
+m("C08-encode-order", "v2/metric/environmental.go", "\tif m.names[metricCDP] {\n\t\tr.WriteString(fmt.Sprintf(\"/%s:%v\", metricCDP, m.CDP)) // Collateral Damage Potential\n\t}\n\tif m.names[metricTD] {\n\t\tr.WriteString(fmt.Sprintf(\"/%s:%v\", metricTD, m.TD)) // Target Distribution\n\t}\n", "\tif m.names[metricTD] {\n\t\tr.WriteString(fmt.Sprintf(\"/%s:%v\", metricTD, m.TD)) // Target Distribution\n\t}\n\tif m.names[metricCDP] {\n\t\tr.WriteString(fmt.Sprintf(\"/%s:%v\", metricCDP, m.CDP)) // Collateral Damage Potential\n\t}\n")
+m("C08-no-misorder-check", "v2/metric/base.go", "\tif vector != enc {\n\t\treturn nil, errs.Wrap(cvsserr.ErrMisordered, errs.WithContext(\"vector\", vector))\n\t}\n", "\tif len(vector) != len(enc) {\n\t\treturn nil, errs.Wrap(cvsserr.ErrMisordered, errs.WithContext(\"vector\", vector))\n\t}\n")
+# ---- C09
+mm("C09-swap-mi-ma-consts", [("v3/metric/environmental.go", "\tmetricMI  = \"MI\"\n\tmetricMA  = \"MA\"", "\tmetricMI  = \"MA\"\n\tmetricMA  = \"MI\"", 1)])
+m("C09-arm-resets-other", "v3/metric/environmental.go", "\t\tem.MS = GetModifiedScope(m[1])\n", "\t\tem.MS = GetModifiedScope(m[1])\n\t\tem.MPR = ModifiedPrivilegesRequiredNotDefined\n")
+m("C09-get-name-part", "v2/metric/metric-au.go", "func GetAuthentication(s string) Authentication {\n", "func GetAuthentication(s string) Authentication {\n\tif s == \"NONE\" {\n\t\ts = \"N\"\n\t}\n")
+m("C09-encode-consults-names", "v3/metric/temporal.go", "\tr.WriteString(fmt.Sprintf(\"/%v:%v\", metricE, tm.E))   //Exploitability\n", "\tif tm.names[metricE] {\n\t\tr.WriteString(fmt.Sprintf(\"/%v:%v\", metricE, tm.E)) //Exploitability\n\t}\n")
+m("C09-order-dependent-arm", "v3/metric/base.go", "\t\tbm.PR = GetPrivilegesRequired(m[1])\n", "\t\tbm.PR = GetPrivilegesRequired(m[1])\n\t\tif bm.S == ScopeChanged && bm.PR == PrivilegesRequiredHigh {\n\t\t\tbm.PR = PrivilegesRequiredLow\n\t\t}\n")
+m("C09-v2-default-nd", "v2/metric/environmental.go", "\t\tTD:       TargetDistributionInvalid,", "\t\tTD:       TargetDistributionNotDefined,")
+# ---- C10
+m("C10-rl-rc-order", "v3/metric/temporal.go", "\tr.WriteString(fmt.Sprintf(\"/%v:%v\", metricRL, tm.RL)) //Remediation Level\n\tr.WriteString(fmt.Sprintf(\"/%v:%v\", metricRC, tm.RC)) //Report Confidence\n", "\tr.WriteString(fmt.Sprintf(\"/%v:%v\", metricRC, tm.RC)) //Report Confidence\n\tr.WriteString(fmt.Sprintf(\"/%v:%v\", metricRL, tm.RL)) //Remediation Level\n")
+m("C10-mc-prints-mi", "v3/metric/environmental.go", "fmt.Sprintf(\"/%v:%v\", metricMC, em.MC)", "fmt.Sprintf(\"/%v:%v\", metricMC, em.MI)")
+m("C10-string-lower", "v3/metric/environmental.go", "func (em *Environmental) String() string {\n\ts, _ := em.Encode()", "func (em *Environmental) String() string {\n\ts, _ := em.Temporal.Encode()")
+m("C10-encode-err-lower", "v2/metric/temporal.go", "\treturn r.String(), m.GetError()\n}\n\n// String is stringer method.\nfunc (m *Temporal)", "\treturn r.String(), m.Base.GetError()\n}\n\n// String is stringer method.\nfunc (m *Temporal)")
+m("C10-x-printed-empty", "v3/metric/modified-scope.go", "ModifiedScopeNotDefined: \"X\",", "ModifiedScopeNotDefined: \"ND\",")
+# ---- C11
+m("C11-invalid-vector-for-value", "v3/metric/base.go", "\t\tif bm.S == ScopeUnknown {\n\t\t\treturn errs.Wrap(cvsserr.ErrInvalidValue,", "\t\tif bm.S == ScopeUnknown {\n\t\t\treturn errs.Wrap(cvsserr.ErrInvalidVector,")
+m("C11-withcause-two-sentinels", "v2/metric/base.go", "\t\treturn nil, errs.Wrap(cvsserr.ErrMisordered, errs.WithContext(\"vector\", vector))", "\t\treturn nil, errs.Wrap(cvsserr.ErrMisordered, errs.WithCause(cvsserr.ErrInvalidVector), errs.WithContext(\"vector\", vector))")
+m("C11-errorf-no-w", "v3/metric/version.go", "\tif len(v) != 2 {\n\t\treturn VUnknown, errs.Wrap(cvsserr.ErrInvalidVector, errs.WithContext(\"vector\", vec))", "\tif len(v) != 2 {\n\t\treturn VUnknown, errs.New(\"invalid prefix \" + vec)")
+m("C11-dup-after-value", "v3/metric/temporal.go", "\tcase metricE: //Exploitability\n\t\ttm.E = GetExploitability(m[1])\n\t\tif tm.E == ExploitabilityInvalid {\n\t\t\treturn errs.Wrap(cvsserr.ErrInvalidValue,", "\tcase metricE: //Exploitability\n\t\ttm.E = GetExploitability(m[1])\n\t\tif tm.E == ExploitabilityInvalid {\n\t\t\treturn errs.Wrap(cvsserr.ErrSameMetric,")
+m("C11-swallow-lower-error", "v3/metric/environmental.go", "\tif err := em.Temporal.decodeOne(str); err != nil {\n\t\tif !errs.Is(err, cvsserr.ErrNotSupportMetric) {\n\t\t\treturn errs.Wrap(err, errs.WithContext(\"metric\", str))\n\t\t}", "\tif err := em.Temporal.decodeOne(str); err != nil {\n\t\tif !errs.Is(err, cvsserr.ErrNotSupportMetric) && !errs.Is(err, cvsserr.ErrSameMetric) {\n\t\t\treturn errs.Wrap(err, errs.WithContext(\"metric\", str))\n\t\t}")
+m("C11-v2-group-sentinel", "v2/metric/environmental.go", "\t\treturn errs.Wrap(cvsserr.ErrNoEnvironmentalMetrics)\n\tdefault:", "\t\treturn errs.Wrap(cvsserr.ErrNoTemporalMetrics)\n\tdefault:")
+# ---- C12
+m("C12-isempty-no-nilguard", "v2/metric/temporal.go", "func (m *Temporal) IsEmpty() bool {\n\tif m == nil {\n\t\treturn true\n\t}\n", "func (m *Temporal) IsEmpty() bool {\n")
+m("C12-accessor-no-nilguard", "v3/metric/environmental.go", "func (em *Environmental) TemporalMetrics() *Temporal {\n\tif em == nil {\n\t\treturn nil\n\t}\n", "func (em *Environmental) TemporalMetrics() *Temporal {\n")
+m("C12-score-no-gate", "v3/metric/temporal.go", "func (tm *Temporal) Score() float64 {\n\tif err := tm.GetError(); err != nil {\n\t\treturn 0.0\n\t}\n", "func (tm *Temporal) Score() float64 {\n\tif tm == nil {\n\t\treturn 0.0\n\t}\n")
+m("C12-return-obj-and-err", "v2/metric/base.go", "\tif lastErr != nil {\n\t\treturn nil, lastErr\n\t}", "\tif lastErr != nil {\n\t\treturn m, lastErr\n\t}")
+m("C12-getversion-index", "v3/metric/version.go", "\tif len(v) != 2 {\n", "\tif len(v) > 2 {\n")
+m("C12-nil-names", "v3/metric/temporal.go", "\t\tRC:    ReportConfidenceNotDefined,\n\t\tnames: map[string]bool{},", "\t\tRC:    ReportConfidenceNotDefined,")
+m("C12-encode-nil-deref", "v2/metric/environmental.go", "func (m *Environmental) Encode() (string, error) {\n\tif m == nil {\n\t\treturn \"\", errs.Wrap(cvsserr.ErrNoBaseMetrics)\n\t}\n", "func (m *Environmental) Encode() (string, error) {\n")
+# ---- C14
+m("C14-basemetrics-fresh", "v3/metric/environmental.go", "func (em *Environmental) BaseMetrics() *Base {\n\tif em == nil {\n\t\treturn nil\n\t}\n\treturn em.Base", "func (em *Environmental) BaseMetrics() *Base {\n\tif em == nil {\n\t\treturn nil\n\t}\n\tb := *em.Base\n\treturn &b")
+m("C14-higher-handles-pr", "v3/metric/temporal.go", "\tswitch name {\n\tcase metricE: //Exploitability", "\tswitch name {\n\tcase metricPR:\n\t\ttm.PR = GetPrivilegesRequired(m[1])\n\tcase metricE: //Exploitability")
+m("C14-temporalmetrics-rebuild", "v2/metric/environmental.go", "func (m *Environmental) TemporalMetrics() *Temporal {\n\tif m == nil {\n\t\treturn nil\n\t}\n\treturn m.Temporal", "func (m *Environmental) TemporalMetrics() *Temporal {\n\tif m == nil {\n\t\treturn nil\n\t}\n\treturn &Temporal{Base: m.Base, names: map[string]bool{}}")
+m("C14-no-delegation", "v2/metric/environmental.go", "\tif err := m.Temporal.decodeOne(str); err != nil {", "\tif err := m.Temporal.Base.decodeOne(str); err != nil {")
 # ---- neutral refactorings
 m("neutral-c01-locals", "v3/metric/base.go", "\tease := 8.22 * bm.AV.Value() * bm.AC.Value() * bm.PR.Value(bm.S) * bm.UI.Value()\n", "\tav, ac := bm.AV.Value(), bm.AC.Value()\n\tease := bm.UI.Value() * (8.22 * av * ac) * bm.PR.Value(bm.S)\n")
 m("neutral-c01-else-chain", "v3/metric/base.go", "\tif changed {\n\t\treturn roundUp(math.Min(1.08*(impact+ease), 10))\n\t}\n\treturn roundUp(math.Min(impact+ease, 10))", "\tvar total float64\n\tif !changed {\n\t\ttotal = ease + impact\n\t} else {\n\t\ttotal = (impact + ease) * 1.08\n\t}\n\treturn roundUp(math.Min(10, total))")
